@@ -87,6 +87,14 @@ def check_map(rec, B, mg, mp, gs, ps, rng, full_list=True, unitary=True, tag="")
               observed=[O.show(g, p) for g, p in zip(lg[:8], lp[:8])])
     mg2, mp2 = B.gsps(M)
     rec.check("img.arg_unchanged", np.array_equal(mg2, mg) and np.array_equal(mp2, mp % 4), case["map"], nt)
+    # the receiver IS the argument: a map transformed by itself is its square
+    Ms = B.Map(mg.copy(), mp.copy())
+    ok, _ = rec.attempt("img.self", case["map"], lambda: Ms.transform_by(Ms))
+    if ok:
+        sg, sp = B.gsps(Ms)
+        sq = O.map_image_list(mg, mp, mg, mp)
+        rec.check("img.self", np.array_equal(sg, sq[0]) and np.array_equal(sp, sq[1] % 4), case["map"], nt,
+                  expected=[O.show(a, b) for a, b in zip(sq[0], sq[1])][:8], observed=[O.show(a, b) for a, b in zip(sg, sp)][:8])
     # structure, observed on the library's own outputs: commutation, hermiticity, squares preserved
     if len(gs) <= 80:
         rec.check("img.commutation", np.array_equal(O.anti_mat(lg), O.anti_mat(gs)), case, nt)
